@@ -432,6 +432,9 @@ class Scheduler(object):
         if w.status == "paused" and self.profile.get("resume_at_rest", True) and self.resumes < 4:
             self.resumes += 1
             self.do(["request", self.K.choice(["resuming", "running"], "ops", "resume", self.pos)])
+            if not w.cancel_req and (self.f.get("cancel") or 0) > 0 and self.K.u("fault", "cancel_after_resume", self.pos) < 0.15:
+                # the operator changes their mind right after resuming, before anything was dispatched
+                self.do(["request", self.K.choice(["canceling", "canceled"], "fault", "ckind2", self.pos)])
             n = self.do(["dispatch"])
             g = 0
             while n and self.profile.get("dispatch_all") and g < 20:
